@@ -168,11 +168,12 @@ func entBody(rq Sx) []byte {
 	var out bytes.Buffer
 	switch sxInt(sxNth(rq, 5)) {
 	case 1:
-		zw := gzip.NewWriter(&out)
+		// any compression level a client may use (it shows in the stream header), chosen by the document
+		zw, _ := gzip.NewWriterLevel(&out, []int{-1, 1, 2, 3, 4, 5, 6, 7, 8, 9, 0, -2}[len(plain)%12])
 		zw.Write(plain)
 		zw.Close()
 	case 2:
-		zw := zlib.NewWriter(&out)
+		zw, _ := zlib.NewWriterLevel(&out, []int{-1, 1, 2, 3, 4, 5, 6, 7, 8, 9, 0, -2}[len(plain)%12])
 		zw.Write(plain)
 		zw.Close()
 	case 3: // gzip, two members (RFC 1952 allows a stream of members; a decoder must read them all)
